@@ -154,8 +154,7 @@ MODELS = [
         M(('b-c', S('x')), ('a', I(1)), ('b_c', I(2)), ('more', S('m')))]),
     # ---- a class that is abstract because it lists ABC (not first)
     ('figs', Z.Draw, [Z.Draw, Z.Fig, Z.Poly, Z.Tri], [
-        M(figs=Q(M(name=S('f')), M(name=S('t'), sides=I(3), kind=S('k'))),
-          main=M(name=S('m'), sides=I(4), kind=S('j')))]),
+        M(figs=Q(M(name=S('f')), M(name=S('t'), sides=I(3), kind=S('k'))))]),
     # ---- C17: earlier Union attributes whose unused alternative fails
     ('labels', Z.Labels, [Z.Labels], [
         M(label=S('txt'), tag2=S('u'), count=I(3), size=I(4), ratio=F(2.5))]),
